@@ -47,11 +47,17 @@ def gen_case(rng, tier, k):
         else:
             # random stubs of the frontier, one at a time; some of them expanded with everything below
             ops = [["frontier", rng.randrange(1 << 30), rng.randint(4, 18), rng.choice([0.0, 0.1, 0.2, 0.3]), rng.choice([0.0, 0.2, 0.4])]]
+        for _ in range(rng.choice([0, 0, 1, 2, 3])):
+            ops.append(["rawcands", rng.randrange(64)])
+        if rng.random() < 0.35:
+            ops.append(["rawcands", "all"])
         if rng.random() < 0.7:
             ops.append(["expseeds"])
+        if rng.random() < 0.2:
+            ops.append(["reclaim"])
         ops.append(["skiprem"])
         return {"bnet": bnet, "ops": ops, "order_seed": rng.choice([None, rng.randrange(1 << 30)]), "fallback": rng.random() < 0.2,
-                "candidate_limit": 100000}
+                "candidate_limit": 100000, "fallback_direct": rng.random() < 0.4}
     first = rng.choice([["bfs", 0, None, lim], ["bfs", 0, rng.randint(0, 2), None], ["dfs", 0, None, lim],
                         ["dfs", 0, rng.randint(0, 2), None], ["min", 0, lim, False], ["min", 0, None, True],
                         ["min", 0, lim, True], ["aseeds", lim], ["blockx", True, lim, True, False], ["none"]])
@@ -66,7 +72,7 @@ def gen_case(rng, tier, k):
         ops.append(["skipmin", rng.randrange(64)])
     ops.append(["skiprem"])
     return {"bnet": bnet, "ops": ops, "order_seed": rng.randrange(1 << 30), "fallback": rng.random() < 0.3,
-            "candidate_limit": rng.choice([100000, 100000, 100000, 1, 2])}
+            "candidate_limit": rng.choice([100000, 100000, 100000, 1, 2]), "fallback_direct": rng.random() < 0.3}
 
 
 _avoid = []
@@ -88,9 +94,33 @@ def _patch_avoid():
     ac.compute_fixed_point_reduced_STG = rec
 
 
+_isect = []
+
+
+def _patch_isect():
+    """record the regions the symbolic fallback removes for a skip node (non-empty `intersect` results)"""
+    import biobalm._sd_attractors.attractor_symbolic as asy
+
+    if getattr(asy.intersect, "_c05", False):
+        return
+    orig = asy.intersect
+
+    def rec(a, b):
+        r = orig(a, b)
+        if r is not None:
+            _isect.append(dict(r))
+        return r
+
+    rec._c05 = True
+    asy.intersect = rec
+
+
 def run_case(case):
+    from biobalm._sd_attractors.attractor_symbolic import symbolic_attractor_fallback
+
     plain._patch_recorders()
     _patch_avoid()
+    _patch_isect()
     sd = make_sd(case)
     sd.config["attractor_candidates_limit"] = case.get("candidate_limit", 100000)
     ni = common.NetInfo(sd.network)
@@ -108,6 +138,7 @@ def run_case(case):
     orc = Oracle(ni)
     seeds, errors = {}, 0
     excl_ties = []
+    fb_ties = []
     for i in order:
         if not sd.node_data(i)["expanded"]:
             continue
@@ -119,6 +150,16 @@ def run_case(case):
                        if sd.node_data(j)["attractor_candidates"] == [] or sd.node_data(j)["attractor_seeds"] == []]
             tie = (ni.sp(d["space"]), ",".join(map(str, empties)) or "-", common.dump_sd(sd, ni),
                    {ni.sp(d["space"] | sd.edge_stable_motif(i, c, reduced=True)) for c in sd.dag.successors(i)})
+        if tie is not None and case.get("fallback_direct"):
+            # the same rule in the fully symbolic fallback (called directly; it stores nothing)
+            del _isect[:]
+            try:
+                fb_seeds, _ = symbolic_attractor_fallback(sd, i)
+                fb_ties.append((i, {ni.sp(x) for x in _isect}, {ni.sp(sd.node_data(c)["space"]) for c in sd.dag.successors(i)},
+                                [dict(x) for x in fb_seeds]))
+                orc.ask(("excl", i), f"SKIPEXCL {tie[0]} {tie[1]} {tie[2]}")
+            except RuntimeError:
+                pass
         del _avoid[:]
         try:
             seeds[i] = [dict(s) for s in sd.node_attractor_seeds(i, compute=True, symbolic_fallback=case["fallback"])]
@@ -165,6 +206,15 @@ def run_case(case):
         if real != child | model and region(real) != region(child | model):
             diffs.append({"stream": "OBS spaces avoided by a skip node vs child motifs + Impl.skipExclusions", "node": i,
                           "impl_only": sorted(real - (child | model)), "model_only": sorted((child | model) - real)})
+    for i, real, child, fb_seeds in fb_ties:
+        model = set(orc.get(("excl", i)).split())
+        if region(real | child) != region(model | child):
+            diffs.append({"stream": "OBS regions removed by the symbolic fallback of a skip node vs Impl.skipExclusions", "node": i,
+                          "impl_only": sorted(real - model), "model_only": sorted(model - real)})
+        f, _ = judge_seeds_sound(orc, node_obs(sd, i), fb_seeds)
+        for x in f:
+            x["detail"] = "symbolic fallback: " + x["detail"]
+        fails += f
     nskip = sum(1 for i in sd.node_ids() if sd.node_data(i)["skipped"])
     skip2 = any(sd.node_data(i)["skipped"] and sd.dag.out_degree(i) >= 2 for i in sd.node_ids())
     for f in fails:
